@@ -9,6 +9,9 @@ import NodisVerif.Proofs.C04ScoreSpec
 import NodisVerif.Proofs.C04Rank
 import NodisVerif.Proofs.C08Step
 import NodisVerif.Model.Handler3
+import NodisVerif.Proofs.FloatDecTrip
+import NodisVerif.Proofs.FloatDecInt
+import NodisVerif.Proofs.FloatDecLen
 /-
   C04 — sorted sets stay ordered by (score, member); rank, range and score agree.
 
@@ -475,5 +478,91 @@ end handlers
      tied to the code by the RESP streams and pinned by witnesses only; there is no general theorem relating
      the handlers' parsing to the reference semantics.
 -/
+
+/-! ## Score text: `strconv.ParseFloat(s, 64)` and `strconv.FormatFloat(x, 'f', -1, 64)` in the model (work package C)
+
+  Model/FloatDec.lean replaces the integer-only float text of earlier rounds: `parseDec` / `parseFloat` (decimal syntax
+  of `readFloat`, exact rounding `roundRat`, range errors, underscores, inf / nan spellings) and `formatShortest`
+  (shortest round-tripping digits, %f rendering). Tied to strconv on every run of this check by the float text table
+  (bin/checks/floattab.py: `fmtfloat` / `parsefloat` lines through the harness and the driver, compared verbatim). -/
+section floattext
+open NodisVerif.F64 NodisVerif.FloatDec
+
+/-- ROUND TRIP (partial): for every double that is not NaN, if the text is not the 17-digit fallback of the digit
+    search (x is ±Inf or ±0, or some n ≤ 17 digits round-trip — true for every double the table has ever tried),
+    then ParseFloat(FormatFloat(x, 'f', -1, 64)) = x bit for bit.
+    MISSING for the full statement: that the search always succeeds within 17 digits (17-digit sufficiency of
+    binary64), i.e. `∀ x finite non-zero, (searchShortest x).isSome`. -/
+theorem formatShortest_roundtrip_partial (x : F64) (hnan : isNaN x = false)
+    (hs : isInf x = true ∨ isZero x = true ∨ (searchShortest x).isSome = true) :
+    parseFloat (formatShortest x) = some (some x) :=
+  Proofs.FloatDecTrip.formatShortest_roundtrip_partial x hnan hs
+
+/-- the hypotheses hold on 0.1, 1, the largest finite double, −1/3 (17 digits), and the smallest subnormal -/
+example : (searchShortest 0x3FB999999999999A).isSome = true ∧ (searchShortest 0x3FF0000000000000).isSome = true ∧
+    (searchShortest 0x7FEFFFFFFFFFFFFF).isSome = true ∧ (searchShortest 0xBFD5555555555555).isSome = true ∧
+    (searchShortest 1).isSome = true := by decide +kernel
+
+/-- the same for the names the sorted-set handlers use: a score written by `fmtScore` reads back as the same score -/
+theorem score_text_roundtrip_partial (x : F64) (t : Bytes) (hnan : isNaN x = false)
+    (hs : isInf x = true ∨ isZero x = true ∨ (searchShortest x).isSome = true)
+    (ht : FloatText.formatFloat x = some t) : FloatText.parseFloat t = some (some x) := by
+  unfold FloatText.formatFloat at ht
+  cases ht
+  exact Proofs.FloatDecTrip.formatShortest_roundtrip_partial x hnan hs
+
+example : FloatText.parseFloat (Bytes.ofString "0.1") = some (some 0x3FB999999999999A) ∧
+    FloatText.formatFloat 0x3FB999999999999A = some (Bytes.ofString "0.1") ∧
+    FloatText.parseFloat (Bytes.ofString "1e400") = some none ∧
+    FloatText.parseFloat (Bytes.ofString "1e-400") = some (some 0) ∧
+    FloatText.parseFloat (Bytes.ofString "-.5") = some (some 0xBFE0000000000000) ∧
+    FloatText.parseFloat (Bytes.ofString "1_000") = some (some 0x408F400000000000) ∧
+    FloatText.parseFloat (Bytes.ofString "0x1p3") = none ∧
+    FloatText.formatFloat 0x444B1AE4D6E2EF50 = some (Bytes.ofString "1000000000000000000000") ∧
+    FloatText.formatFloat 0x3EB0C6F7A0B5ED8D = some (Bytes.ofString "0.000001") := by decide +kernel
+
+/-- INTEGER TEXT: an optional sign and decimal digits (at most 800) whose value is below 2^53 parse to exactly the
+    double of that integer, `roundPack neg n 0` = `F64.ofInt?` — the integer-only model and the decimal model agree -/
+theorem parseDec_integer (sgn : Bytes) (neg : Bool)
+    (hs : (sgn = [] ∧ neg = false) ∨ (sgn = [43] ∧ neg = false) ∨ (sgn = [45] ∧ neg = true))
+    (ds : Bytes) (hne : ds ≠ []) (hall : ds.all isDigit = true) (hlen : ds.length ≤ 800)
+    (hn : digitsToNat ds 0 < 2 ^ 53) :
+    parseDec (sgn ++ ds) = some (some (roundPack neg (digitsToNat ds 0) 0)) :=
+  Proofs.FloatDecInt.parseDec_digits sgn neg hs ds hne hall hlen hn
+
+example : parseDec ([45] ++ [49, 50, 51]) = some (some (roundPack true 123 0)) ∧ F64.ofInt? (-123) = some (roundPack true 123 0) :=
+  ⟨parseDec_integer [45] true (Or.inr (Or.inr ⟨rfl, rfl⟩)) [49, 50, 51] (by decide) (by decide) (by decide) (by decide), by decide⟩
+
+/-- wherever the integer-only model of earlier rounds (`Api.parseFloatTextInt`) produced a value, the decimal model
+    produces the same one — except on "-0", "-00", …, where Go and the decimal model give −0 and the old model gave +0 -/
+theorem parseFloatText_agrees_with_integer_model (b : Bytes) (x : F64) (h : Api.parseFloatTextInt b = some (some x))
+    (hnz : ¬ (b.head? = some 45 ∧ parseInt64 b = some 0)) : Api.parseFloatText b = some (some x) :=
+  Proofs.FloatDecInt.parseFloatText_agrees_int b x h hnz
+
+example : Api.parseFloatTextInt [45, 49, 50] = some (some 0xC028000000000000) ∧
+    ¬ (([45, 49, 50] : Bytes).head? = some 45 ∧ parseInt64 [45, 49, 50] = some 0) := by decide +kernel
+
+/-- EXACT INPUTS: every finite double x = (−1)^s · m · 2^e (m, e = `decode x`; zeros and subnormals included) is the
+    value `roundRat` returns on the exact rational m·2^e — no rounding happens on representable values -/
+theorem roundRat_exact (x : F64) (hfin : expBits x < 2047) :
+    roundRat (sign x) (if (decode x).2 ≥ 0 then (decode x).1 * 2 ^ (decode x).2.toNat else (decode x).1)
+      (if (decode x).2 ≥ 0 then 1 else 2 ^ (-(decode x).2).toNat) = x :=
+  Proofs.FloatDecRound.roundRat_decode x hfin
+
+example : expBits (0x3FB999999999999A : F64) < 2047 ∧ expBits (1 : F64) < 2047 := by decide
+
+/-- … and a natural below 2^53 over 1 gives the double of the integer model -/
+theorem roundRat_exact_nat (neg : Bool) (n : Nat) (hn0 : 0 < n) (hn : n < 2 ^ 53) : roundRat neg n 1 = roundPack neg n 0 :=
+  Proofs.FloatDecRound.roundRat_nat neg n hn0 hn
+
+/-- LENGTH: FormatFloat(x, 'f', -1, 64) never exceeds 1000 bytes (true maximum 327); the old bound 21 held for
+    integer-valued doubles only. Used for the storage codec's size side condition (C20: `Call.WF`). -/
+theorem formatShortest_length (x : F64) : (formatShortest x).length ≤ 1000 :=
+  Proofs.FloatDecLen.formatShortest_length x
+
+/- NOT PROVED: monotonicity of `roundRat` / `parseDec` (a ≤ b → parse a ≤ parse b); 17-digit sufficiency (above);
+   that `formatShortest` is the *shortest* and *closest* such text (these are what the table compares with Go). -/
+
+end floattext
 
 end NodisVerif.C04
